@@ -479,6 +479,9 @@ def gen_history(rng, fixed=None):
             events.append(["q", rng.choice([1, 1, 0]), rng.randbytes(16).hex()])
         if rng.random() < 0.5:
             events.append(["p", rng.randrange(n)])
+        if fixed or rng.random() < 0.4:
+            # the mutable publisher's use of the verdict: every server already holds one share, five more need a home
+            events.append(["g", n + 5, [[i, i] for i in range(n)]])
         if rng.random() < 0.4:
             i = rng.randrange(n)
             c = rng.random()
@@ -661,6 +664,27 @@ def run_history(ctx, case, workdir, lines_b, impl_b, cases_b, direct, offers):
                 if v != cur[i] or new is not old:
                     since[i] = t
                 cur[i], present[i] = v, True
+        elif ev[0] == "g":
+            from allmydata.mutable.publish import Publish
+            byidx = {sids.index(x.get_serverid()): x for x in sb.servers.values()}
+            pub = Publish.__new__(Publish)
+            pub._log_number, pub._new_seqnum, pub._first_write_error = None, 1, None
+            pub.total_shares = ev[1]
+            pub.goal = set((byidx[i], sh) for (i, sh) in ev[2] if i in byidx)
+            pub.bad_servers = set()
+            pub.full_serverlist = list(sb.get_servers_for_psi(b"\x07" * 16))
+            before = set(pub.goal)
+            try:
+                pub.update_goal()
+            except Exception as e:
+                ctx.count("publish:" + type(e).__name__)
+            for (srv, sh) in pub.goal - before:
+                i = sids.index(srv.get_serverid())
+                ctx.count("publish:new-placement")
+                if not permitted(i, cur[i], t):
+                    ctx.violation("Publish.update_goal directs a new share to a server without a currently valid grid-manager certificate "
+                                  "(the server already holds a share of the file)", dict(case, at={"event": ei, "t": t, "server": i}),
+                                  "publish-placed-share-without-valid-cert" + (":at-or-after-expiry" if permitted(i, cur[i], since[i]) else ":never-valid"))
         elif ev[0] == "p":
             i = ev[1]
             if not present[i]:
